@@ -52,6 +52,10 @@ pub(crate) struct SessimCtx {
     pub(crate) want_trace: bool,
     pub(crate) trace_hash: u64,
     pub(crate) trace_len: usize,
+    /// Hash of the steps executed in the current round only (always on).
+    pub(crate) round_hash: u64,
+    /// Position and state of the first step executed in the current round.
+    pub(crate) round_first: Option<(usize, usize, String)>,
     pub(crate) trace: Vec<(usize, usize, String)>,
     /// Description of each fault that actually landed: (kind, step, state, expr kind, stack depth)
     pub(crate) fired: Vec<(String, usize, String, String, usize)>,
@@ -159,6 +163,21 @@ fn sessim_step(
                 return Act::Deliver(Rc::clone(d), n);
             }
             return Act::None;
+        }
+        if !ctx.budget_exceeded {
+            let st = format!("{:?}", expr_state);
+            let mut h = ctx.round_hash;
+            h = util::fnv_u64(h, outer_expr.position.start_offset as u64);
+            h = util::fnv_u64(h, outer_expr.position.end_offset as u64);
+            h = util::fnv_bytes(h, st.as_bytes());
+            ctx.round_hash = h;
+            if ctx.round_first.is_none() {
+                ctx.round_first = Some((
+                    outer_expr.position.start_offset,
+                    outer_expr.position.end_offset,
+                    format!("{}/{}", debug_head(&outer_expr.expr_), st),
+                ));
+            }
         }
         if ctx.trace_on && !ctx.budget_exceeded {
             let st = format!("{:?}", expr_state);
